@@ -40,7 +40,8 @@ type OutOp struct {
 }
 
 type C04Case struct {
-	Announce    int          `json:"announce,omitempty"` // the outgoing handler sends a raw announcement ahead of every k-th message it is offered (0: never)
+	NoCallback  bool         `json:"no_callback,omitempty"` // acceptor without a new-client callback (nil): the application sets its handlers up in its own HandlerFactory
+	Announce    int          `json:"announce,omitempty"`    // the outgoing handler sends a raw announcement ahead of every k-th message it is offered (0: never)
 	Role        string       `json:"role"`
 	Buf         int          `json:"buf"`
 	Hangup      bool         `json:"hangup"`               // every peer closes its connection right after its last byte, without waiting
@@ -173,6 +174,7 @@ func genC04(t *rapid.T) *C04Case {
 		if rapid.IntRange(0, 2).Draw(t, "slowSetup") == 0 {
 			c.SetupNs = rapid.SampledFrom([]int64{1, 1e6, 2e9}).Draw(t, "setupNs")
 		}
+		c.NoCallback = rapid.IntRange(0, 3).Draw(t, "noCallback") == 0
 	}
 	for i := 0; i < nc; i++ {
 		c.Conns = append(c.Conns, genConnScript(t, i))
@@ -296,7 +298,11 @@ func checkC04(c *C04Case, rec *evid.Rec) (vs []pbt.Violation) {
 		ready0 := make(chan struct{}) // closed once the first connection's handlers are registered
 		if c.Role == "acceptor" {
 			var next atomic.Int32 // callbacks of connections pending at once run on their own goroutines
-			ar = rig.StartAcceptor(c.Buf, 10*time.Second, func(h simplefixgo.AcceptorHandler) {
+			start := rig.StartAcceptor
+			if c.NoCallback {
+				start = rig.StartAcceptorNoCallback // same set-up, done in the application's own handler factory
+			}
+			ar = start(c.Buf, 10*time.Second, func(h simplefixgo.AcceptorHandler) {
 				i := int(next.Add(1)) - 1
 				if c.SetupNs > 0 {
 					time.Sleep(time.Duration(c.SetupNs)) // the application takes its time; the peer does not wait
@@ -664,6 +670,9 @@ func checkC04(c *C04Case, rec *evid.Rec) (vs []pbt.Violation) {
 		rec.Extra("outbound_messages", int64(total))
 	}
 	rec.Case(evid.FPs(fmt.Sprint(c.Role, c.Buf, len(c.Conns), len(c.Senders), lens(c))), nontrivial)
+	if c.NoCallback {
+		rec.Hist("acceptor-without-new-client-callback")
+	}
 	rec.Hist("role:" + c.Role)
 	if c.Hangup {
 		rec.Hist("peer-hangs-up-after-last-byte")
